@@ -80,7 +80,8 @@ class PatternToken(RegexpBaseToken):
 
 # TODO добавить условие для локализации
 class LiteralToken(RegexpBaseToken):
-    regexp = r'\"(.*?)\"|(\d+)((\.)(\d+))?(e(-?\d+))?|(TRUE(\(\))?)|(FALSE(\(\))?)'
+    # a text literal ends at the first quote that is not doubled; a doubled quote stands for one quote character
+    regexp = r'\"((?:[^\"]|\"\")*)\"|(\d+)((\.)(\d+))?(e(-?\d+))?|(TRUE(\(\))?)|(FALSE(\(\))?)'
     value_range = [0, -1]
 
     def __init__(self, *args, **kwargs):
@@ -95,7 +96,9 @@ class LiteralToken(RegexpBaseToken):
                 real_value *= 10 ** int(self.value[7])
             real_value = str(real_value)
         elif self.value[1] or self.value[0] == '""':
-            real_value = f'\'{self.value[1]}\''
+            # repr(): whatever characters the text contains (quotes, backslashes, line breaks), the generated code holds
+            # them as inert string data that evaluates to exactly the original text
+            real_value = repr(self.value[1].replace('""', '"'))
         elif self.value[8]:
             real_value = 'True'
         elif self.value[10]:
